@@ -121,8 +121,10 @@ Holds(p, S, c) ==
          (S.sched[c.t1] /\ S.sched[c.t2])
             => (S.s[c.t2] >= S.e[c.t1] \/ S.s[c.t1] >= S.e[c.t2])
     [] c.cls = "TasksContiguous" ->
-         LET q == SortedTasks(S, SchedOf(S, SeqToSet(c.tasks)))
-         IN  \A i \in 1..(Len(q) - 1) : S.s[q[i + 1]] = S.e[q[i]]
+         LET ts == SchedOf(S, SeqToSet(c.tasks))
+             q == SortedTasks(S, ts)
+         IN  \* what "contiguous" means for a zero-length member is an unspecified corner (UnspecCon)
+             (\E t \in ts : S.s[t] = S.e[t]) \/ \A i \in 1..(Len(q) - 1) : S.s[q[i + 1]] = S.e[q[i]]
     [] c.cls \in {"UnorderedTaskGroup", "OrderedTaskGroup"} ->
          LET ts == SchedOf(S, SeqToSet(c.tasks))
          IN  /\ Has(c.interval) =>
@@ -220,8 +222,9 @@ UnspecCon(p, S, c) ==
          THEN {"dontoverlap-both-sides"} ELSE {}
     [] c.cls = "TasksContiguous" ->
          LET ts == SchedOf(S, SeqToSet(c.tasks))
-         IN  IF \E a, b \in ts : a # b /\ (S.s[a] = S.s[b] \/ S.e[a] = S.e[b])
-             THEN {"contiguous-coinciding-times"} ELSE {}
+         IN  (IF \E a, b \in ts : a # b /\ (S.s[a] = S.s[b] \/ S.e[a] = S.e[b])
+              THEN {"contiguous-coinciding-times"} ELSE {})
+             \cup (IF \E t \in ts : S.s[t] = S.e[t] THEN {"contiguous-zero-length-member"} ELSE {})
     [] c.cls = "OrderedTaskGroup" ->
          \* an unscheduled member between two scheduled ones: is the order transitive?
          IF \E i, j, k \in 1..Len(c.tasks) : i < j /\ j < k /\ S.sched[c.tasks[i]]
